@@ -325,6 +325,19 @@ impl<'tcx> Cx<'tcx> {
                 lsig.output().visit_with(&mut rv_view);
                 o.set("out_view_regions", J::Arr(rv_view.out.into_iter().map(J::from).collect()));
                 o.set("in_regions", J::Arr(rv_in.out.into_iter().map(J::from).collect()));
+                // the region of each input that is itself a reference (`&'s self`), and of the output if it is one
+                let mut irr = Vec::new();
+                for t in lsig.inputs().iter() {
+                    if let ty::Ref(r, _, _) = t.kind() {
+                        irr.push(J::from(region_name(*r)));
+                    } else {
+                        irr.push(J::Null);
+                    }
+                }
+                o.set("in_ref_regions", J::Arr(irr));
+                if let ty::Ref(r, _, _) = lsig.output().kind() {
+                    o.set("out_ref_region", J::from(region_name(*r)));
+                }
                 let mut ol = Vec::new();
                 // predicates_of(..).instantiate_identity includes the enclosing impl's predicates
                 for (p, _sp) in tcx.predicates_of(did).instantiate_identity(tcx).into_iter() {
